@@ -289,6 +289,7 @@ def gen_dro_sep(rng, cfg):
         s_bound.append(add({'op': 'st', 'm': 'm', 'ids': ['bx']}, [steps[-1]['sid']] + s_amb, role='bound', anchor=s_x[0]))
 
     expect = {'x': [], 'obj_const': 0.0}
+    shared = []
     obj = xs[0]
     for t in xs[1:]:
         obj = ['+', obj, t]
@@ -319,7 +320,15 @@ def gen_dro_sep(rng, cfg):
         ce = _lin_forms(rng, xs[k], a, b)
         if etype:
             ce = [ce[0], ['E', ce[1]], ce[2]] if ce[0] == '<=' else [ce[0], ce[1], ['E', ce[2]]]
-        s_c = add({'op': 'cons', 'id': 'c%d' % k, 'e': ce}, {s_x[k]} | set(s_x) | set(s_z.values()) | set(before_expr), role='cons')
+        cdeps = {s_x[k]} | set(s_x) | set(s_z.values()) | set(before_expr)
+        if not etype and rng.random() < 0.35:
+            # the left-hand side is one shared Python expression object (it may be wrapped elsewhere in the meantime)
+            lhs = ce[1] if ce[0] == '<=' else ce[2]
+            s_e = add({'op': 'expr', 'id': 'e%d' % k, 'e': lhs}, cdeps, role='expr')
+            ce = ['<=', ['v', 'e%d' % k], ce[2]] if ce[0] == '<=' else ['>=', ce[1], ['v', 'e%d' % k]]
+            cdeps = cdeps | {s_e}
+            shared.append('e%d' % k)
+        s_c = add({'op': 'cons', 'id': 'c%d' % k, 'e': ce}, cdeps, role='cons')
         last = s_c
         if own:
             last = add({'op': 'forall', 'id': 'c%d' % k, 'amb': an}, [s_c, s_amb['FG'.index(an)]], role='set')
@@ -338,10 +347,153 @@ def gen_dro_sep(rng, cfg):
                 s_['deps'] = sorted(set(s_['deps']) | set(dv))
     xnames = ['x%d' % k for k in range(K)] if scalar_x else ['x']
     return {'family': 'dro-sep', 'model': 'm', 'cone': cone, 'ints': ints, 'zs': zs, 'steps': steps, 'labels': labels,
-            'expect': expect, 'xnames': xnames, 'pool': solver_pool(cone, ints), 'late_decl_before_expr': True}
+            'expect': expect, 'xnames': xnames, 'pool': solver_pool(cone, ints), 'shared': shared}
 
 
-FAMILIES = {'ro-sep': gen_ro_sep, 'dro-sep': gen_dro_sep}
+def gen_ro_gen(rng, cfg):
+    """coupled ro model (differential oracles L2/L3 only): continuous / integer / binary blocks, a decision rule with a
+    random dependency mask, coupled robust <= / >= / == rows with per-row sets, deterministic rows whose atoms allocate
+    auxiliary columns (abs, 1-/2-/inf-norm, square, sumsqr, p-norm, power, exp, log, entropy), worst-case objective."""
+    cone = rng.choice(['lp', 'lp', 'soc', 'soc', 'exp'])
+    n = rng.randint(2, 4)
+    nz = rng.randint(2, 4)
+    zs = {'z': nz}
+    fams = gen.fams_for(cone)
+    steps = []
+
+    def add(op, deps, **kw):
+        s_ = {'sid': 's%d' % (len(steps) + 1), 'op': op, 'deps': sorted(deps)}
+        s_.update(kw)
+        steps.append(s_)
+        return s_['sid']
+
+    s_m = add({'op': 'model', 'id': 'm', 'kind': 'ro'}, [])
+    s_z = add({'op': 'rvar', 'id': 'z', 'm': 'm', 'shape': [nz]}, [s_m])
+    s_x = add({'op': 'dvar', 'id': 'x', 'm': 'm', 'shape': [n]}, [s_m])
+    x0 = [gen.r2(rng, -1, 1) for _ in range(n)]
+    add({'op': 'cons', 'id': 'bxl', 'e': ['>=', ['v', 'x'], ['c', [round(v - gen.r2(rng, 1, 3), 2) for v in x0]]]}, [s_x], role='bound')
+    add({'op': 'cons', 'id': 'bxu', 'e': ['<=', ['v', 'x'], ['c', [round(v + gen.r2(rng, 1, 3), 2) for v in x0]]]}, [s_x], role='bound')
+    add({'op': 'st', 'm': 'm', 'ids': ['bxl', 'bxu']}, [steps[-2]['sid'], steps[-1]['sid']], role='bound', anchor=s_x)
+    ints = False
+    s_iv = None
+    if cone != 'exp' and rng.random() < 0.5:
+        ints = True
+        vt = rng.choice(['I', 'B'])
+        k = rng.randint(1, 2)
+        s_iv = add({'op': 'dvar', 'id': 'iv', 'm': 'm', 'shape': [k], 'vtype': vt}, [s_m], late=True)
+        add({'op': 'cons', 'id': 'bil', 'e': ['>=', ['v', 'iv'], ['c', [0.0] * k]]}, [s_iv], role='bound', late=True)
+        add({'op': 'cons', 'id': 'biu', 'e': ['<=', ['v', 'iv'], ['c', [rng.choice([1.0, 2.5, 3.0])] * k]]}, [s_iv], role='bound', late=True)
+        add({'op': 'st', 'm': 'm', 'ids': ['bil', 'biu']}, [steps[-2]['sid'], steps[-1]['sid']], role='bound', anchor=s_iv, late=True)
+    # decision rule
+    s_y = None
+    dep = []
+    if rng.random() < 0.6:
+        s_y = add({'op': 'ldr', 'id': 'y', 'm': 'm', 'shape': [1]}, [s_m])
+        s_ad = []
+        dep = sorted(rng.sample(range(nz), rng.randint(0, nz)))
+        prev = None
+        for j in dep:
+            prev = add({'op': 'adapt', 'tgt': ['v', 'y'], 'to': ['i', ['v', 'z'], [j, j + 1]]}, [s_y, s_z] + ([prev] if prev else []), role='adapt')
+            s_ad.append(prev)
+    default_set = gen.gen_set(rng, zs, fams)
+    # objective: min max_z ( c.x [+ y] + d.z )
+    cx = [gen.nz2(rng, -2, 2) for _ in range(n)]
+    dz = [gen.nz2(rng, -1, 1) for _ in range(nz)]
+    oe = ['+', ['@', ['c', cx], ['v', 'x']], ['@', ['c', dz], ['v', 'z']]]
+    odeps = {s_x, s_z}
+    if s_iv:
+        oe = ['+', oe, ['sum', ['*', ['c', gen.nz2(rng, -1, 1)], ['v', 'iv']]]]
+        odeps.add(s_iv)
+    if s_y:
+        oe = ['+', oe, ['sum', ['v', 'y']]]
+        odeps |= {s_y} | set(s_ad)
+    s_obj = add({'op': 'obj', 'm': 'm', 'how': 'minmax', 'e': oe, 'set': ref.set_constraints(default_set, zs), 'blocks': default_set},
+                odeps, role='obj')
+    if s_y:
+        # y_j stays within a band around c.z so that the model is bounded whatever the dependency mask is
+        cj = [gen.nz2(rng, -1, 1) for _ in range(nz)]
+        up = ref.support(default_set, {'z': cj})
+        lo = ref.support(default_set, {'z': [-v for v in cj]})
+        width = round(up + lo + 1.0, 2)
+        mid = round((up - lo) / 2.0, 2)
+        add({'op': 'cons', 'id': 'ry1', 'e': ['<=', ['-', ['v', 'y'], ['@', ['c', cj], ['v', 'z']]], ['c', round(width - mid, 2)]]}, [s_y, s_z] + s_ad, role='cons')
+        add({'op': 'cons', 'id': 'ry2', 'e': ['>=', ['-', ['v', 'y'], ['@', ['c', cj], ['v', 'z']]], ['c', round(-width - mid, 2)]]}, [s_y, s_z] + s_ad, role='cons')
+        add({'op': 'st', 'm': 'm', 'ids': ['ry1', 'ry2']}, [steps[-2]['sid'], steps[-1]['sid'], s_obj], role='bound', anchor=s_y)
+    # robust rows with own / default sets
+    for k in range(rng.randint(1, 3)):
+        a = [gen.nz2(rng, -2, 2) if rng.random() < 0.8 else 0.0 for _ in range(n)]
+        r = _coef(rng, zs)['z']
+        own = rng.random() < 0.6
+        blocks = gen.gen_set(rng, zs, fams) if own else default_set
+        sense = rng.choice(['<=', '<=', '>='])
+        ax0 = sum(u * v for u, v in zip(a, x0))
+        if sense == '<=':
+            b = round(ax0 + ref.support(blocks, {'z': r}) + gen.r2(rng, 0.2, 2), 3)
+        else:
+            b = round(ax0 - ref.support(blocks, {'z': [-v for v in r]}) - gen.r2(rng, 0.2, 2), 3)
+        e = [sense, ['+', ['@', ['c', a], ['v', 'x']], ['@', ['c', r], ['v', 'z']]], ['c', b]]
+        s_c = add({'op': 'cons', 'id': 'r%d' % k, 'e': e}, [s_x, s_z], role='cons')
+        last = s_c
+        if own:
+            last = add({'op': 'forall', 'id': 'r%d' % k, 'set': ref.set_constraints(blocks, zs), 'blocks': blocks}, [s_c], role='set')
+        add({'op': 'st', 'm': 'm', 'ids': ['r%d' % k]}, [last] + ([] if own else [s_obj]), role='st')
+    # deterministic rows whose atoms allocate auxiliary columns
+    atoms = ['abs', 'n1', 'ninf']
+    if cone in ('soc', 'exp'):
+        atoms += ['n2', 'sumsqr', 'square', 'pn', 'pow']
+    if cone == 'exp':
+        atoms += ['exp', 'log', 'entropy']
+    for k in range(rng.randint(1, 3)):
+        at = rng.choice(atoms)
+        xe = ['-', ['v', 'x'], ['c', x0]]
+        if at == 'abs':
+            e = ['<=', ['f', 'abs', xe], ['c', [gen.r2(rng, 0.5, 2) for _ in range(n)]]]
+        elif at in ('n1', 'ninf', 'n2'):
+            e = ['<=', ['norm', xe, {'n1': 1, 'ninf': 'inf', 'n2': 2}[at]], ['c', gen.r2(rng, 0.5, 3)]]
+        elif at == 'sumsqr':
+            e = ['<=', ['f', 'sumsqr', xe], ['c', gen.r2(rng, 0.5, 3)]]
+        elif at == 'square':
+            e = ['<=', ['f', 'square', xe], ['c', [gen.r2(rng, 0.5, 2) for _ in range(n)]]]
+        elif at == 'pn':
+            e = ['<=', ['pnorm', xe, rng.choice([3, [5, 2]]), 'soc'], ['c', gen.r2(rng, 0.5, 3)]]
+        elif at == 'pow':
+            e = ['<=', ['f', 'power', xe, rng.choice([2, 3]), 1], ['c', [gen.r2(rng, 0.5, 2) for _ in range(n)]]]
+        elif at == 'exp':
+            e = ['<=', ['f', 'exp', ['*', ['c', 0.3], xe]], ['c', [gen.r2(rng, 1.2, 3) for _ in range(n)]]]
+        elif at == 'log':
+            e = ['>=', ['f', 'log', ['+', xe, ['c', [3.0] * n]]], ['c', [gen.r2(rng, 0.0, 0.9) for _ in range(n)]]]
+        else:
+            e = ['>=', ['f', 'entropy', ['+', xe, ['c', [3.0] * n]]], ['c', round(-n * 3.0 * 1.0986122886681098 - gen.r2(rng, 0.5, 2), 3)]]
+        s_c = add({'op': 'cons', 'id': 'd%d' % k, 'e': e}, [s_x], role='cons')
+        add({'op': 'st', 'm': 'm', 'ids': ['d%d' % k]}, [s_c], role='st')
+    return {'family': 'ro-gen', 'model': 'm', 'cone': cone, 'ints': ints, 'zs': zs, 'steps': steps, 'expect': None,
+            'xnames': ['x'], 'pool': solver_pool(cone, ints)}
+
+
+def gen_dro_gen(rng, cfg):
+    """event-wise static and affine adaptation (generator shared with M-PART): partitions and dependency masks built
+    by adapt() histories, per-scenario supports, fixed probabilities; closed-form optimum known."""
+    from machines import part
+    kind = rng.choice(['dro', 'dro', 'ro'])
+    c = part.gen_combo(rng, cfg, kind)
+    steps = [{'sid': 'm0', 'op': c['model_op'], 'deps': []}]
+    obj_sid = None
+    for s_ in c['steps']:
+        t = dict(s_)
+        t['deps'] = sorted(set(t['deps']) | {'m0'})
+        if t.get('role') == 'obj':
+            obj_sid = t['sid']
+        steps.append(t)
+    for t in steps:
+        if t.get('role') == 'st':
+            t['anchor'] = obj_sid          # the model is bounded only once its constraints are in
+            t['deps'] = sorted(set(t['deps']) | {obj_sid})
+    # in dro every expression must follow every decision variable (finding K6); part.gen_combo guarantees it
+    return {'family': 'dro-gen' if kind == 'dro' else 'ro-ldr', 'model': 'm', 'cone': 'lp', 'ints': c['integer_y'], 'zs': {'z': c['n']},
+            'steps': steps, 'expect': {'opt': c['expect']['opt']}, 'xnames': ['t'], 'pool': c['pool']}
+
+
+FAMILIES = {'ro-sep': gen_ro_sep, 'dro-sep': gen_dro_sep, 'ro-gen': gen_ro_gen, 'dro-gen': gen_dro_gen}
 
 
 # ==================================================================================================
@@ -403,6 +555,12 @@ FAULTS_BY_ENGINE = {
 def gen_noise(rng, decl, declared, n):
     """define-and-discard operations on objects that exist now: a throw-away robust constraint with some
     other set (biased to families whose atoms are kept in never-cleared lists)."""
+    sh = [e for e in decl.get('shared', []) if e in declared]
+    if sh and rng.random() < 0.5:
+        # use an existing expression object inside an expectation / piecewise term and throw the result away
+        e = rng.choice(sh)
+        return [{'op': 'expr', 'id': 'junk%d' % n, 'env': 1, 'wrap': 1,
+                 'e': rng.choice([['E', ['maxof', ['v', e], ['c', -100.0]]], ['E', ['minof', ['v', e], ['c', 100.0]]]])}]
     zs = {zn: k for zn, k in decl['zs'].items() if zn in declared}
     xs = [x for x in decl['xnames'] if x in declared]
     if not zs or not xs:
@@ -434,7 +592,7 @@ def gen_schedule(rng, decl, bias, cfg):
         op['sid'] = st['sid']
         ops.append(op)
         done.append(st)
-        if 'id' in op and op['op'] in ('dvar', 'rvar', 'ldr'):
+        if 'id' in op and op['op'] in ('dvar', 'rvar', 'ldr', 'expr'):
             declared.add(op['id'])
         while rng.random() < p_env and nev < cfg.get('max_env', 10):
             nev += 1
@@ -533,6 +691,8 @@ def tags_of(ops):
             expr_built = True
         if k == 'dvar' and expr_built and kind == 'dro':
             tags.add('dro_dvar_after_expression')
+        if k == 'expr' and op.get('wrap'):
+            tags.add('shared_expr_wrapped_in_expectation')
         if k in ('forall', 'obj', 'supp') and ('set' in op):
             fams = {b['fam'] for b in op.get('blocks', [])}
             if ipc_seen:
@@ -631,6 +791,11 @@ def check_case(case, props):
         return {'violations': viols, 'stats': stats}
 
     # ---- L1: closed form ---------------------------------------------------------------------
+    if decl.get('expect') and 'opt' in decl['expect']:
+        stats['l1_checks'] += 1
+        if not close(out0['obj'], decl['expect']['opt'], tol * 10):
+            viol('L1-objective', 'canonical build: optimum %.9g, closed form for the declared partitions/masks %.9g'
+                 % (out0['obj'], decl['expect']['opt']), canon_ops(decl))
     if fam.endswith('-sep'):
         stats['l1_checks'] += 1
         exp_x = decl['expect']['x']
